@@ -60,7 +60,7 @@ P_CYCLE = BASE.with_(w_ops=dict(update=10, react=8, query=5, change=4, immChange
 def cfgs_views(tier, rng):
     out = []
     for k in range(5 if tier == "quick" else 12):
-        out.append(cfgmod.make(n=pick(rng, [1, 2, 3, 4]), head=k % 2, manual=(k // 2) % 2, limit=2, cap=2, ctx=k % 3, payload=pick(rng, [0, 2]),
+        out.append(cfgmod.make(n=pick(rng, [1, 2, 3, 4]), head=k % 2, manual=(k // 2) % 2, limit=2, cap=2, ctx=k % 4 if k < 4 else k % 3, payload=pick(rng, [0, 2]),
                                inj_state=pick(rng, [0, 0, 1]), plans=k % 2, history=1, log="on" if k % 2 else "off"))
     return out
 
@@ -147,6 +147,9 @@ def cfgs_logging(tier, rng):
     # a head that defines only one of the two plan outcome callbacks (non-verbose logging decides per callback whether to record)
     out.append(cfgmod.make(n=2, head=1, manual=0, limit=2, cap=2, payload=0, plans=1, history=0, log="on", defroot=FULL & ~0x2000, defstate=FULL))
     out.append(cfgmod.make(n=2, head=1, manual=1, limit=2, cap=2, payload=0, plans=1, history=0, log="on", defroot=FULL & ~0x1000, defstate=FULL))
+    # state classes whose callbacks are const member functions (the method records must still name the method delivered)
+    out.append(cfgmod.make(n=3, head=1, manual=0, limit=2, cap=2, payload=0, plans=1, history=0, log="on", constcb=1))
+    out.append(cfgmod.make(n=2, head=1, manual=1, limit=2, cap=2, payload=2, plans=0, history=1, log="on", inj_state=1, constcb=1))
     # logging compiled out: the same scripts must give the same callbacks and states (compared with the model under log=off)
     out.append(cfgmod.make(n=3, head=1, manual=0, limit=2, cap=3, payload=0, plans=1, history=1, log="off"))
     out.append(cfgmod.make(n=2, head=1, manual=1, limit=2, cap=2, payload=2, plans=1, history=1, log="off"))
@@ -193,6 +196,16 @@ def plan_templates(tier):
                                              "op succeed 0 0", "op update 0"]) + "\n", "template:failure-dropped-on-exit"))
             out.append((c, "\n".join(pre + ["op succeed 0 0", "op update 0", "op immChange 0 %d" % a1, "op plan.append 0 0 %d" % a2, "op immChange 0 0", "op update 0", "op update 0"]) + "\n",
                         "template:success-dropped-on-exit"))
+            # a task that fires consumes the success report even when a guard vetoes its transition: the origin stays active, and the now empty plan
+            # must not be reported as succeeded in a later cycle in which nobody reports anything (entry-guard veto and exit-guard veto)
+            for veto in ("tab * S%d own entryGuard  : cancel" % a1, "tab * S0 own exitGuard  : cancel"):
+                out.append((c, "\n".join(pre[:1] + [veto] + pre[1:] + ["op plan.append 0 0 %d" % a1, "op succeed 0 0", "op update 0", "op update 0", "op update 0",
+                                                                      "op plan.append 0 0 %d" % a2, "op update 0", "op succeed 0 0", "op update 0"]) + "\n", "template:vetoed-task-consumes-success"))
+            # the active state fails while a transition request is already waiting: planFailed() is still due in that very cycle
+            out.append((c, "\n".join(pre + ["op plan.append 0 0 %d" % a1, "op plan.append 0 %d %d" % (a1, a2), "op change 0 %d" % a2, "op fail 0 0", "op update 0", "op update 0"]) + "\n",
+                        "template:failure-with-request-pending"))
+            out.append((c, "\n".join(pre[:1] + ["tab * S0 own update occ=0 : change %d ; fail self" % a2] + pre[1:] + ["op plan.append 0 0 %d" % a1, "op update 0", "op update 0"]) + "\n",
+                        "template:failure-and-request-from-the-same-callback"))
     return out
 
 def life_cb(l): return l.kind == "cb" and l.meth in T.LIFE
